@@ -79,3 +79,20 @@ Example ex_newer_unrecoverable :
 Proof. vm_compute. repeat split. Qed.
 Example ex_chain : observed_chain [ [] ; [ {| srv := 1; shnum := 0; ver := {| seq := 1; vtag := 0; vk := 1 |} |} ] ].
 Proof. apply oc_cons; [eexists; split; [left; reflexivity|reflexivity] | apply oc_one]. Qed.
+
+From Verif Require Import Gen.MutPins.
+From Coq Require Import String.
+(* Fingerprints (AST, comments and docstrings excluded) of the source functions this model
+   transcribes by hand, regenerated from /repo on every run (harness/translate/mutpins.py):
+   the model was written for exactly these versions of them. *)
+Theorem model_pins_current :
+  pins_C11 =
+  [("servermap_highest_seqnum", "4871c81fee974c91")%string;
+   ("servermap_shares_available", "d787572c6f9a5558")%string;
+   ("servermap_recoverable_versions", "7503b41df73f1b99")%string;
+   ("servermap_unrecoverable_versions", "e842ac165b6a52f6")%string;
+   ("servermap_best_recoverable_version", "d17e5392f2d1ae9d")%string;
+   ("servermap_unrecoverable_newer_versions", "86adec526abef15e")%string;
+   ("servermap_check_for_done", "74ad7670791d4051")%string].
+Proof. reflexivity. Qed.
+Print Assumptions model_pins_current.
